@@ -54,6 +54,10 @@ Section Records.
     { destruct Hrun as [-> | [-> | Hd]]; [now rewrite andb_false_r|reflexivity|].
       destruct (persisting (c_data tc) && negb (os_forced (state_of w id))); [exact Hd|reflexivity]. }
     rewrite Hnl in He.
+    fold (pre_of classes run f o) in He.
+    match type of He with context [fold_left (pre_of classes run f o) ?l ?a] =>
+      destruct (fold_left (pre_of classes run f o) l a) as [w2' b'] eqn:Epre end.
+    destruct b'; [|discriminate].
     destruct (existsb _ _); [discriminate|].
     match type of He with (match ?X with _ => _ end) = _ => destruct X as [w4 [ins|e]] eqn:Ef end; [|discriminate].
     injection He as <- <-. exists ins. split; [reflexivity|]. cbn [w_store set_state with_store].
@@ -65,9 +69,14 @@ Section Records.
     - intros ->. rewrite dget_dset_other by apply result_ne_info. apply dget_dset_same.
   Qed.
 
-  (* a run that fails (its own run raises) leaves a log without messages and writes no record *)
+  (* a run that fails (its own run raises) leaves a log without messages and writes no record.
+     Stated for tasks that name no input in the signature of run: there the failing body is the first
+     thing that happens; with run arguments the inputs are requested in between, and that they leave
+     this task's files alone is the statement of eval_writes_only_its_objects_files for every file that
+     is not a task's own *)
   Theorem failing_run_writes_no_record f w id o tc w' e :
     nth_error (w_objs w) id = Some o -> cls_of classes o = Some tc -> os_mem (state_of w id) = None ->
+    c_runargs tc = [] ->
     existsb (str_eqb (c_slug tc)) (w_fail w) = true ->
     (os_forced (state_of w id) = true \/ persisting (c_data tc) = false \/
      dget (result_path tc o) (mkdirs (dir_of_slug (c_slug tc)) (w_store w)) = None) ->
@@ -76,7 +85,7 @@ Section Records.
     dget (info_path tc o) (w_store w') = dget (info_path tc o) (mkdirs (dir_of_slug (c_slug tc)) (w_store w)) /\
     os_mem (state_of w' id) = None.
   Proof.
-    intros Ho Hc Hm Hfail Hrun He. cbn [eval] in He. rewrite Ho, Hc, Hm in He.
+    intros Ho Hc Hm Hra Hfail Hrun He. cbn [eval] in He. rewrite Ho, Hc, Hm, Hra in He. cbn [fold_left] in He.
     assert (Hnl : (if persisting (c_data tc) && negb (os_forced (state_of w id))
                    then dget (result_path tc o) (w_store (with_store (mkdirs (dir_of_slug (c_slug tc)) (w_store w)) w))
                    else None) = None).
@@ -136,11 +145,19 @@ Section CrossTalk.
       { split; [reflexivity|]. intros p e _ Hp. simpl. now apply dget_mkdirs_go_existing. }
       destruct (if persisting (c_data tc) && negb (os_forced (state_of w id)) then _ else None) as [[|v1|v1|l1]|].
       1-4: injection He as <- _; exact K1.
-      set (w3 := {| w_store := dset (log_path tc o) (FLog []) (w_store w1); w_objs := w_objs w1; w_states := w_states w1;
-                    w_runlog := w_runlog w1 ++ [(c_slug tc, o_key o)]; w_fail := w_fail w1 |}) in *.
-      assert (K3 : Keeps w w3).
+      set (w2 := with_store (dset (log_path tc o) (FLog []) (w_store w1)) w1) in *.
+      assert (K2 : Keeps w w2).
       { destruct K1 as [O1 K1]. split; [exact O1|]. intros p e Hn Hp. simpl.
         destruct (Hown p Hn) as (_ & _ & Hl). rewrite dget_dset_other by assumption. now apply K1. }
+      fold (pre_of classes run f o) in He.
+      match type of He with context [fold_left (pre_of classes run f o) ?l ?a] =>
+        destruct (fold_left (pre_of classes run f o) l a) as [w2' b'] eqn:Epre end.
+      apply (fold_pre_rel classes run Keeps f o keeps_refl keeps_trans IHf) in Epre.
+      pose proof (keeps_trans _ _ _ K2 Epre) as K2'.
+      destruct b'; [|injection He as <- _; exact K2'].
+      set (w3 := {| w_store := w_store w2'; w_objs := w_objs w2'; w_states := w_states w2';
+                    w_runlog := w_runlog w2' ++ [(c_slug tc, o_key o)]; w_fail := w_fail w2' |}) in *.
+      assert (K3 : Keeps w w3) by exact K2'.
       destruct (existsb _ _); [injection He as <- _; exact K3|].
       match type of He with (match ?X with _ => _ end) = _ => destruct X as [w4 [ins|e]] eqn:Ef end;
         apply (fold_keeps f IHf) in Ef; pose proof (keeps_trans _ _ _ K3 Ef) as K4; injection He as <- _; [|exact K4].
